@@ -192,6 +192,50 @@ func checkC07(c *core.Ctx, r *core.Report) {
 	checkOrderDeep(c, r, sm, appendWip, "WriteRunningSegMeta", objs(writeRunning, writeSfm), "resetWipBlock", objs(resetWip), false, 1,
 		"the flush is complete (and acknowledged by the caller) only when the running .sfm covers the block")
 
+	// once the block summary of a block was written the flush is only complete — and may only be reported as
+	// successful — after the running .sfm covers the block and the wip block was reset: every return that may
+	// report success and is reachable after flushBlockSummary passes WriteRunningSegMeta and resetWipBlock (made
+	// directly, or by a helper that has made them whenever it reports success).  A success return in between
+	// acknowledges events that a crash loses, and the next flush writes the same records again as the same block.
+	{
+		bsPred := sm.successMustPred(objs(flushBlockSummary))
+		for _, need := range []struct {
+			name string
+			set  objSet
+		}{{"WriteRunningSegMeta", objs(writeRunning, writeSfm)}, {"resetWipBlock", objs(resetWip)}} {
+			isNeed := sm.successMustPred(need.set)
+			construct := fmt.Sprintf("%s:success-after-flushBlockSummary-passes-%s", core.FnName(appendWip), need.name)
+			var bad *ssa.Return
+			nStart := 0
+			for _, ci := range core.CallsIn(appendWip) {
+				if !bsPred(ci) {
+					continue
+				}
+				nStart++
+				if isNeed(ci) {
+					continue // the same helper also does what is needed whenever it reports success
+				}
+				core.WalkForward(appendWip, ci, func(in ssa.Instruction) bool {
+					if x, ok := in.(ssa.CallInstruction); ok && isNeed(x) {
+						return false
+					}
+					if ret, ok := in.(*ssa.Return); ok && core.ReturnSuccess(ret) != core.No && bad == nil {
+						bad = ret
+					}
+					return true
+				})
+			}
+			switch {
+			case nStart == 0:
+				r.Undecided("ORDER", construct, c.Pos(appendWip.Pos()), "no call that writes the block summary found in AppendWipToSegfile")
+			case bad != nil:
+				r.Violation("ORDER", construct, c.Pos(bad.Pos()), fmt.Sprintf("after the block summary was written AppendWipToSegfile can return success without %s: the caller takes the flush as done, but the block is not covered by the running .sfm (lost after a crash) and/or the wip block is not reset, so the next flush writes the same records again under the same block number", need.name))
+			default:
+				r.OK("ORDER", construct, c.Pos(appendWip.Pos()), "every success return reachable after the block summary passes "+need.name)
+			}
+		}
+	}
+
 	// ---------------------------------------------------------------- (3)
 	rotate := c.Fn(pkgWriter, "SegStore.checkAndRotateColFiles")
 	addSegmeta := c.Obj(pkgWriter, "addSegmeta")
@@ -285,36 +329,110 @@ func checkC07(c *core.Ctx, r *core.Report) {
 	syncFn := c.Fn(pkgQuery, "syncSegMetaWithSegFullMeta")
 	readSfm := c.Obj(pkgWriter, "ReadSfm")
 	n := 0
-	// the .sfm is read by the recovery function itself, or by a populate helper of the same package that it
-	// calls (today readSegFullMetaFileAndPopulate); the guards are required at whichever place does the read
+	// the .sfm is read by the recovery function itself or, through helpers of the same package (a populate helper,
+	// a per-directory scan extracted into a function), further down; the guards are required at every level:
+	// the read's result is used only where its error is nil, a helper propagates the failure, the top level
+	// adopts what was read, and — new with round 7 — inside a scan loop the failure of ONE segment's read does not
+	// end the scan (the other segments of the directory hold completed flushes too)
 	nRead := 0
-	for _, call := range callsTo(syncFn, readSfm) {
-		n++
-		nRead++
-		checkErrGuardedUse(c, r, "GUARD", call, "ReadSfm", "recovery must adopt a segment directory only when its .sfm was read and parsed")
-		checkAdoptedOnSuccess(c, r, "GUARD", call, "ReadSfm", "every open segment whose .sfm parses carries completed flushes and must be adopted at restart, whatever its counters say (the running .sfm is written before numBlocks is incremented)")
+	readers := map[*ssa.Function]bool{} // functions of the package from which ReadSfm is reached
+	var cone []*ssa.Function
+	{
+		seen := map[*ssa.Function]bool{syncFn: true}
+		cone = []*ssa.Function{syncFn}
+		for i := 0; i < len(cone) && i < 64; i++ {
+			for _, ci := range core.CallsIn(cone[i]) {
+				h := ci.Common().StaticCallee()
+				if h != nil && h.Blocks != nil && !seen[h] && core.FnPkgPath(h) == core.FnPkgPath(syncFn) {
+					seen[h] = true
+					cone = append(cone, h)
+				}
+			}
+		}
+		for changed := true; changed; {
+			changed = false
+			for _, g := range cone {
+				if readers[g] {
+					continue
+				}
+				for _, ci := range core.CallsIn(g) {
+					if core.IsCallTo(ci, readSfm) || (ci.Common().StaticCallee() != nil && readers[ci.Common().StaticCallee()]) {
+						readers[g] = true
+						changed = true
+					}
+				}
+			}
+		}
 	}
-	for _, ci := range core.CallsIn(syncFn) {
-		hcall, ok := ci.(*ssa.Call)
-		if !ok {
+	for _, g := range cone {
+		if !readers[g] {
 			continue
 		}
-		h := hcall.Call.StaticCallee()
-		if h == nil || h.Blocks == nil || core.FnPkgPath(h) != core.FnPkgPath(syncFn) {
-			continue
-		}
-		inner := callsTo(h, readSfm)
-		if len(inner) == 0 {
-			continue
-		}
-		n++
-		checkErrGuardedUse(c, r, "GUARD", hcall, h.Name(), "recovery must adopt a segment directory only when its .sfm was read and parsed")
-		checkAdoptedOnSuccess(c, r, "GUARD", hcall, h.Name(), "every open segment whose .sfm parses carries completed flushes and must be adopted at restart, whatever its counters say (the running .sfm is written before numBlocks is incremented)")
-		for _, call := range inner {
+		loops := core.Loops(g)
+		for _, ci := range core.CallsIn(g) {
+			call, ok := ci.(*ssa.Call)
+			if !ok {
+				continue
+			}
+			isRead := core.IsCallTo(call, readSfm)
+			h := call.Call.StaticCallee()
+			if !isRead && !(h != nil && readers[h]) {
+				continue
+			}
+			what := "ReadSfm"
+			if !isRead {
+				what = h.Name()
+			} else {
+				nRead++
+			}
 			n++
-			nRead++
-			checkErrGuardedUse(c, r, "GUARD", call, "ReadSfm", "a half-written .sfm must not be adopted")
-			checkErrPropagated(c, r, "GUARD", call, "ReadSfm", "a half-written .sfm must make the populate step fail")
+			checkErrGuardedUse(c, r, "GUARD", call, what, "recovery must adopt a segment directory only when its .sfm was read and parsed")
+			if g == syncFn {
+				checkAdoptedOnSuccess(c, r, "GUARD", call, what, "every open segment whose .sfm parses carries completed flushes and must be adopted at restart, whatever its counters say (the running .sfm is written before numBlocks is incremented)")
+			}
+			lp := core.InnermostLoop(loops, call.Block())
+			if lp == nil {
+				if g != syncFn {
+					checkErrPropagated(c, r, "GUARD", call, what, "a half-written .sfm must make the populate step fail")
+				}
+				continue
+			}
+			// inside a scan loop: the failure edge stays in the loop
+			errv, _ := errResultOf(call)
+			construct := fmt.Sprintf("%s:failure-of(%s)-does-not-end-the-scan", core.FnName(g), what)
+			if errv == nil {
+				r.Undecided("GUARD", construct, c.Pos(call.Pos()), "the read's error result was not found")
+				continue
+			}
+			var leaves ssa.Instruction
+			core.WalkForwardEdges(g, call, func(in ssa.Instruction) bool {
+				if core.NilnessAt(errv, in.Block()) == core.Yes {
+					return false // the success side
+				}
+				return true
+			}, func(from, to *ssa.BasicBlock) bool {
+				if to == lp.Header {
+					return false // next segment: fine
+				}
+				if !lp.Body[to] {
+					if core.NilnessAt(errv, from) == core.No || core.NilnessAt(errv, to) == core.No {
+						if leaves == nil {
+							leaves = from.Instrs[len(from.Instrs)-1]
+						}
+					}
+					return false
+				}
+				return true
+			})
+			if leaves != nil {
+				at := leaves.Pos()
+				if !at.IsValid() {
+					at = call.Pos()
+				}
+				r.Violation("GUARD", construct, c.Pos(at), "inside the scan over the segment directories the failure of one segment's .sfm read leaves the loop (return / break): one unreadable or still empty directory — rotation creates the next segment's directory before its first flush — hides every other open segment of the stream directory from recovery, and their completed flushes are never searchable again")
+			} else {
+				r.OK("GUARD", construct, c.Pos(call.Pos()), "on failure the scan goes on with the next directory")
+			}
 		}
 	}
 	r.Floor("GUARD", "reads of the .sfm in the recovery of open segments", nRead, 1)
